@@ -108,6 +108,228 @@ def tables(p):
     return rules, terms
 
 
+def gen_ignore_grammar(rng):
+    """Grammar for the dynamic lexers whose %ignore terminals overlap its own terminals: string literals over
+    {a,b} as terminals, one to three %ignore'd literals of different lengths chosen among strings that are a
+    prefix of / a suffix of / equal to terminals of the grammar, alternatives that can consume the ignorable
+    text inside a symbol (A | AB with "b" ignored).  Returns (grammar text, [ignored strings])."""
+    pool = [('A', 'a'), ('B', 'b'), ('AB', 'ab'), ('BA', 'ba'), ('AA', 'aa'), ('BB', 'bb'), ('ABA', 'aba'),
+            ('BAB', 'bab')]
+    k = rng.randint(3, 5)
+    chosen = [pool[0], pool[1]] + rng.sample(pool[2:], k - 2)
+    terms = [n for n, _ in chosen]
+    nts = ['start', 'a', 'b'][:rng.randint(2, 3)]
+    lines = []
+    for nt in nts:
+        idx = nts.index(nt)
+        alts = []
+        for _ in range(rng.randint(2, 3) if nt == 'start' else rng.randint(1, 3)):
+            if nt != 'start' and rng.random() < 0.1:
+                alts.append('')
+                continue
+            n = rng.choice([1, 2, 2, 3])
+            syms, has_term = [], False
+            for _ in range(n):
+                if rng.random() < 0.5:
+                    syms.append(rng.choice(terms))
+                    has_term = True
+                else:
+                    # the start symbol is never used recursively: with %ignore lark carries every completed
+                    # start item over ignored text, which duplicates derivations (finding, see C20 EXOTIC)
+                    syms.append(('NT', rng.choice(nts[1:]) if len(nts) > 1 else rng.choice(terms)))
+            out = []
+            for s_ in syms:
+                if isinstance(s_, tuple):
+                    name = s_[1]
+                    if name in nts and not has_term and nts.index(name) <= idx:
+                        later = nts[idx + 1:]
+                        name = rng.choice(later) if later else rng.choice(terms)
+                    out.append(name)
+                else:
+                    out.append(s_)
+            alts.append(' '.join(out))
+        seen, alts2 = set(), []
+        for a in alts:
+            if a not in seen:
+                seen.add(a)
+                alts2.append(a)
+        pr = '.%d' % rng.choice([-1, 1, 2]) if rng.random() < 0.3 else ''
+        lines.append('%s%s: %s' % (nt, pr, ' | '.join(alts2)))
+    for n, v in chosen:
+        lines.append('%s: "%s"' % (n, v))
+    # ignored literals: overlap the terminals (prefix / suffix / whole), different lengths
+    cands = set()
+    for _, v in chosen:
+        for l in range(1, len(v) + 1):
+            cands.add(v[:l])
+            cands.add(v[-l:])
+    cands = sorted(cands)
+    ign = rng.sample(cands, min(len(cands), rng.choice([1, 1, 2, 2, 3])))
+    for v in ign:
+        lines.append('%%ignore "%s"' % v)
+    return '\n'.join(lines) + '\n', ign
+
+
+def gap_closure(text, ignores):
+    """reach[i] = positions reachable from i by skipping zero or more ignored matches"""
+    n = len(text)
+    reach = []
+    for i in range(n + 1):
+        seen = {i}
+        todo = [i]
+        while todo:
+            p = todo.pop()
+            for v in ignores:
+                if v and text.startswith(v, p) and p + len(v) not in seen:
+                    seen.add(p + len(v))
+                    todo.append(p + len(v))
+        reach.append(sorted(seen))
+    return reach
+
+
+def enumerate_derivations_ignore(rules, terms, start, text, ignores, cap=400):
+    """Character-level derivations of `start` over text for the dynamic lexers with %ignore: the tokens tile the
+    text in order, ignored matches may only lie between tokens (before the first, after the last); every token
+    span is matched by its (string literal) terminal.  Tree = ('N', rule_id, children) | ('T', term, text, pos).
+    Canonical spans: a symbol ends where its last token ends.  Returns (list, cyclic)."""
+    n = len(text)
+    reach = gap_closure(text, ignores)
+    by_origin = {}
+    for r in rules:
+        by_origin.setdefault(r['origin'], []).append(r)
+    names = sorted(by_origin)
+
+    def term_from(name, i):
+        """tokens of terminal `name` after an optional gap starting at i: [(tree, end)]"""
+        v = terms[name]['value']
+        out = []
+        for p in reach[i]:
+            if v and text.startswith(v, p):
+                out.append((('T', name, v, p), p + len(v)))
+        return out
+    der = set()
+
+    def seq_ok(exp, k, i, j):
+        if k == len(exp):
+            return i == j
+        is_term, name = exp[k]
+        if is_term:
+            return any(e <= j and seq_ok(exp, k + 1, e, j) for _, e in term_from(name, i))
+        return any((name, i, m) in der and seq_ok(exp, k + 1, m, j) for m in range(i, j + 1))
+    changed = True
+    while changed:
+        changed = False
+        for name in names:
+            for i in range(n + 1):
+                for j in range(i, n + 1):
+                    if (name, i, j) not in der and any(seq_ok(r['exp'], 0, i, j) for r in by_origin[name]):
+                        der.add((name, i, j))
+                        changed = True
+    memo, active, flags = {}, set(), {'cyclic': False}
+
+    def sym(name, i, j):
+        key = (name, i, j)
+        if key not in der:
+            return []
+        if key in memo:
+            return memo[key]
+        if key in active:
+            flags['cyclic'] = True
+            return []
+        active.add(key)
+        out = []
+        for r in by_origin.get(name, []):
+            for cs in seq(r['exp'], 0, i, j):
+                out.append(('N', r['id'], cs))
+                if len(out) > cap:
+                    raise TooMany()
+        active.discard(key)
+        memo[key] = out
+        return out
+
+    def seq(exp, k, i, j):
+        if k == len(exp):
+            return [()] if i == j else []
+        is_term, name = exp[k]
+        res = []
+        if is_term:
+            heads = [(t, e) for t, e in term_from(name, i) if e <= j]
+        else:
+            heads = None
+        ends = sorted({e for _, e in heads}) if is_term else range(i, j + 1)
+        for m in ends:
+            if not seq_ok(exp, k + 1, m, j):
+                continue
+            hs = [t for t, e in heads if e == m] if is_term else sym(name, i, m)
+            if not hs:
+                continue
+            tails = seq(exp, k + 1, m, j)
+            for h in hs:
+                for t in tails:
+                    res.append((h,) + t)
+                    if len(res) > 4 * cap:
+                        raise TooMany()
+        return res
+    out = []
+    for j in range(n + 1):
+        if n in reach[j]:
+            out += sym(start, 0, j)
+    return out, flags['cyclic']
+
+
+def erase_pos(d):
+    if d[0] == 'T':
+        return d[:3]
+    return ('N', d[1], tuple(erase_pos(c) for c in d[2]))
+
+
+def expand_ambig_pos(t):
+    """like expand_ambig, token leaves carry their start position: ('T', type, text, start_pos)"""
+    from lark import Token
+    import itertools
+    if isinstance(t, Token):
+        return [('T', str(t.type), str(t), t.start_pos)]
+    if str(t.data) == '_ambig':
+        out = []
+        for c in t.children:
+            out += expand_ambig_pos(c)
+        return out
+    parts = [expand_ambig_pos(c) for c in t.children]
+    return [('N', str(t.data), cs) for cs in itertools.product(*parts)]
+
+
+def leaves(d):
+    if d[0] == 'T':
+        return [d]
+    out = []
+    for c in d[2]:
+        out += leaves(c)
+    return out
+
+
+def tiling_problem(d, text, terms, ignores):
+    """structural check of one derivation read off the forest: its tokens, left to right, are ordered
+    non-overlapping slices of the input, each matched by its terminal, and what lies between/around them is a
+    sequence of ignored matches.  None or a message."""
+    reach = gap_closure(text, ignores)
+    pos = 0
+    for (_, name, txt, p) in leaves(d):
+        if p is None:
+            return 'token %s %r has no position' % (name, txt)
+        if p < pos:
+            return 'token %s %r at [%d,%d) overlaps the previous token (ended at %d)' % (name, txt, p, p + len(txt), pos)
+        if p not in reach[pos]:
+            return 'text %r before token %s %r is neither a token nor ignorable' % (text[pos:p], name, txt)
+        if text[p:p + len(txt)] != txt:
+            return 'token %s %r is not the input slice [%d,%d)' % (name, txt, p, p + len(txt))
+        if name in terms and terms[name]['value'] != txt:
+            return 'token %s %r is not matched by its terminal %r' % (name, txt, terms[name]['value'])
+        pos = p + len(txt)
+    if len(text) not in reach[pos]:
+        return 'trailing text %r is neither a token nor ignorable' % text[pos:]
+    return None
+
+
 # --------------------------------------------------------------------------- SPPF export
 def export_graph(root, p, maps=None):
     """SPPF reachable from root as a list of nodes (ids = discovery order, root = 0).
@@ -226,7 +448,12 @@ def optZ(x):
     return 'None' if x is None else '(Some %s)' % Z(int(x))
 
 
-def coq_forest(nodes, annotated=True):
+def postext(pos, text):
+    """token text with its start position, for position-aware comparison in the model"""
+    return '%s:%s' % (pos, text)
+
+
+def coq_forest(nodes, annotated=True, pos=False):
     """Coq literal of the (acyclic) forest with sharing unfolded semantically but kept textually: a symbol or
     token node referenced several times is bound once by `let` (the term denotes the unfolded tree).
     asym when annotated (observed priorities and observed `children` order as indices into the
@@ -250,7 +477,8 @@ def coq_forest(nodes, annotated=True):
             return memo[i]
         nd = nodes[i]
         if nd['k'] == 'T':
-            r = '(%s %s %s %s)' % ('ATok' if annotated else 'TokLeaf', S(nd['term']), S(nd['text']), zprio(nd['prio']))
+            txt = postext(nd['start'], nd['text']) if pos else nd['text']
+            r = '(%s %s %s %s)' % ('ATok' if annotated else 'TokLeaf', S(nd['term']), S(txt), zprio(nd['prio']))
         elif nd['k'] == 'S':
             fams = L([go(c) for c in nd['fams']])
             if annotated:
@@ -295,15 +523,15 @@ def coq_event(e):
     return '(%s, %s, (@nil N))' % ({'in': '0%N', 'out': '1%N', 'tok': '2%N'}[e[0]], BN(e[1]))
 
 
-def coq_utree(t):
+def coq_utree(t, pos=False):
     """lark Tree/Token (TreeForestTransformer output) -> Forest/Tft.v utree literal"""
     from lark import Tree, Token
     if isinstance(t, Token):
-        return '(ULeaf %s %s)' % (S(str(t.type)), S(str(t)))
+        return '(ULeaf %s %s)' % (S(str(t.type)), S(postext(t.start_pos, str(t)) if pos else str(t)))
     if isinstance(t, Tree):
         if str(t.data) == '_ambig':
-            return '(UAmbig %s)' % L([coq_utree(c) for c in t.children])
-        return '(UNode %s %s)' % (S(str(t.data)), L([coq_utree(c) for c in t.children]))
+            return '(UAmbig %s)' % L([coq_utree(c, pos) for c in t.children])
+        return '(UNode %s %s)' % (S(str(t.data)), L([coq_utree(c, pos) for c in t.children]))
     raise TypeError(repr(t))
 
 
@@ -585,7 +813,7 @@ def idtree_to_derivation(t):
 
 def coq_otree(d):
     if d[0] == 'T':
-        return '(OLeaf %s %s)' % (S(d[1]), S(d[2]))
+        return '(OLeaf %s %s)' % (S(d[1]), S(postext(d[3], d[2]) if len(d) > 3 else d[2]))
     return '(ONode %s %s)' % (Z(d[1]), L([coq_otree(c) for c in d[2]]))
 
 
